@@ -19,7 +19,9 @@ FirstPackets == {"connect4", "connect5", "publish", "pingreq", "garbage", "nothi
 KeepAlives == {0, 30}
 ClientIds == {"plain", "empty", "plus", "dollar", "hash", "slash"}
 AuthConfigs == {"none", "static", "callback"}
-Logins == {"absent", "wrong", "right"}
+Logins == {"absent", "wrong", "right",
+           "prefix",      \* the right user with a proper prefix of the right password
+           "emptypw"}     \* the right user with an empty password
 
 Rows == [listener : Listeners, first : FirstPackets, keep_alive : KeepAlives, cid : ClientIds, clean : BOOLEAN,
          auth : AuthConfigs, login : Logins, full : BOOLEAN]        \* full: the router already holds max_connections sessions
